@@ -1,4 +1,5 @@
 import Pendulum.Proofs.FmtMisc
+import Pendulum.Proofs.FmtTokenize
 import Pendulum.Proofs.FmtLocales
 import Pendulum.Props.C15
 /-! # C08 — format() renders every token correctly and from_format() inverts it
@@ -7,7 +8,9 @@ Property theorems only. `Gen.Format.*` / `Gen.FormatLocales.*` / `Gen.py_*` are 
 `formatting/formatter.py`, `datetime.py`, `constants.py` and the 27 locale packages on every run; `Fmt.*` is the
 hand model of `Formatter.format` / `Formatter.parse` (repaired code) tied by the correspondence run; `Cal.*` is the
 reference calendar.  Values: `Fmt.Val` (wall fields, utc offset, zone name, abbreviation); the domain of the
-property is `Fmt.InRange` (years 1000..9999, valid clock fields, whole-minute offset below 100 h). -/
+property is `Fmt.InRange` (years 1000..9999, valid clock fields, whole-minute offset below 100 h).
+The round-trip class 𝓕 (`Fmt.NTok`, `Fmt.FItem`): `Proofs/FmtClass.lean` (tokens, recognisers, read-back), `Proofs/FmtRoundTrip.lean`
+(matching, `_check_parsed` on the states the class produces), `Proofs/FmtTokenize.lean` (tokenizer on class format strings). -/
 namespace Pendulum.Props.C08
 open Pendulum Pendulum.Fmt
 
@@ -231,28 +234,135 @@ theorem to_string_helpers :
 
 /-! ## from_format() -/
 
-/-- **round trip on the class 𝓕** (numeric tokens `YYYY MM M DD D HH H mm m ss s SSSSSS Z ZZ`, each at most once, single
-    literal characters between them, a non-digit literal / an offset token / the end after every variable-width token):
+/-- **round trip on the class 𝓕** (tokens `YYYY YY MM M DD D DDDD DDD HH H hh h A mm m ss s S SS SSS SSSS SSSSS SSSSSS Z ZZ`,
+    each at most once, single literal characters between them, a non-digit literal / an offset token / the end after every
+    variable-width token; with `A`, a locale whose AM word cannot match the PM word — `meridiem_words_distinct`):
     for every value of the domain, every such format and every `now`, `parse(format(v))` reads exactly the fields the
-    tokens carry and fills the rest by the defaulting rules.  `_partial`: the property's class also has localized names
-    (see `localized_roundtrip`), 12-hour+meridiem, day-of-year and zone-name tokens, which are covered by the correspondence
-    and oracle runs only. -/
+    tokens carry (`NTok.set`: `YY` through the pivot, `hh`/`h` as the 12-hour number, `A` as the meridiem, `S`…`SSSSS` as the
+    printed digits scaled to microseconds) and fills the rest by the rules of `_check_parsed`.  `_partial`: the property's class
+    also has localized names (see `localized_roundtrip`) and zone-name tokens, which are covered by the correspondence and
+    oracle runs only. -/
 theorem fromFormat_format_partial (L : Loc) (v : Val) (hv : InRange v) (its : List FItem) (now : Now)
-    (hne : its ≠ []) (hsep : WellSep its = true) (hrep : NoRepeat its = true) :
-    formatItems L v.toDTF (its.map FItem.toItem) = .ok (rendered v its) ∧
-    parseItems L (rendered v its) (its.map FItem.toItem) now =
+    (hne : its ≠ []) (hsep : WellSep its = true) (hrep : NoRepeat its = true) (hL : LocOK L its) :
+    formatItems L v.toDTF (its.map FItem.toItem) = .ok (rendered L v its) ∧
+    parseItems L (rendered L v its) (its.map FItem.toItem) now =
       checkParsed ((toks its).foldl (fun p t => t.set v p) {}) now :=
-  parse_format_class L v hv its now hne hsep hrep
+  parse_format_class L v hv its now hne hsep hrep hL
 
-/-- **round trip, full formats**: if the format string tokenizes into a format of the class that carries a full date, time,
-    fraction and offset, then `from_format(dt.format(fmt), fmt)` has `dt`'s fields and offset, for every `dt` of the domain,
-    every locale and every `now` -/
+/-- **tokenization of class formats** (general, no per-format evaluation): the format string assembled from an item list of
+    the class — token texts and literal characters — is cut back by the tokenizer of `format()`/`from_format()` into exactly
+    these items, provided every literal is a character no token alternative starts with (and not `[` or `\`) and the character
+    after a token does not continue it into a longer alternative of `_TOKENS` (`TokSep`, decidable per format; e.g. `D` may not
+    be followed by `o`, `DD` or `D`, `S` not by `S`) -/
+theorem tokenize_class_format (its : List FItem) (h : TokSep its = true) :
+    tokenize (fmtChars its) = its.map FItem.toItem := tokenize_class its h
+
+example : TokSep [.tok .YYYY, .lit '-', .tok .MM, .lit '-', .tok .DD, .lit 'T', .tok .HH, .lit ':', .tok .mm, .lit ':', .tok .ss,
+    .lit '.', .tok .SSSSSS, .tok .Z] = true ∧
+    fmtChars [.tok .YYYY, .lit '-', .tok .MM, .lit '-', .tok .DD, .lit 'T', .tok .HH, .lit ':', .tok .mm, .lit ':', .tok .ss,
+    .lit '.', .tok .SSSSSS, .tok .Z] = Gen.py_ISO8601_EXTENDED.toList := by decide
+/-- the side condition is needed: `D` followed by the literal `o` is the ordinal token `Do` -/
+example : TokSep [.tok .D, .lit 'o'] = false ∧ tokenize (fmtChars [.tok .D, .lit 'o']) = [Item.tok "Do".toList] := by decide
+
+/-- **round trip, full formats of the extended class**: if the format string tokenizes into a format of the class that carries
+    a full date (year as `YYYY`, or as `YY` for years inside the pivot window 1969..2068; month and day, or the day of the year
+    `DDDD`/`DDD` for a valid date), a full time (24-hour clock, or `hh`/`h` together with the meridiem `A`), one fraction token
+    `f` among `S`…`SSSSSS` and an offset, then `from_format(dt.format(fmt), fmt)` has `dt`'s fields and offset — the microsecond
+    truncated to the precision `f` prints — for every `dt` of the domain and every `now` -/
+theorem fromFormat_format_ext (L : Loc) (v : Val) (hv : InRange v) (fmt : Str) (its : List FItem) (f : NTok) (now : Now)
+    (htok : tokenize fmt = its.map FItem.toItem)
+    (hsep : WellSep its = true) (hrep : NoRepeat its = true) (hL : LocOK L its) (hfull : FullX its f = true)
+    (hyy : NTok.YY ∈ toks its → 1969 ≤ v.y ∧ v.y ≤ 2068)
+    (hvd : (toks its).any NTok.isDoy = true → Cal.validDate v.y v.mo v.d) :
+    ∃ s, format L v fmt = .ok s ∧
+      parse L s fmt now = .ok ⟨v.y, v.mo, v.d, v.h, v.mi, v.s, v.us / f.scale * f.scale, some (TzP.fixed v.off)⟩ := by
+  refine ⟨rendered L v its, ?_, ?_⟩
+  · unfold format; rw [htok, expandItems_class, formatItems_class]
+  · unfold parse; rw [htok]; exact parse_format_fullX L v hv its f now hsep hrep hL hfull hyy hvd
+
+/-- the same for the format *string* assembled from the items, the tokenization being proved once and for all
+    (`tokenize_class_format`) instead of being evaluated per format -/
+theorem fromFormat_format_string (L : Loc) (v : Val) (hv : InRange v) (its : List FItem) (f : NTok) (now : Now)
+    (htok : TokSep its = true)
+    (hsep : WellSep its = true) (hrep : NoRepeat its = true) (hL : LocOK L its) (hfull : FullX its f = true)
+    (hyy : NTok.YY ∈ toks its → 1969 ≤ v.y ∧ v.y ≤ 2068)
+    (hvd : (toks its).any NTok.isDoy = true → Cal.validDate v.y v.mo v.d) :
+    ∃ s, format L v (fmtChars its) = .ok s ∧
+      parse L s (fmtChars its) now = .ok ⟨v.y, v.mo, v.d, v.h, v.mi, v.s, v.us / f.scale * f.scale, some (TzP.fixed v.off)⟩ :=
+  fromFormat_format_ext L v hv _ its f now (tokenize_class its htok) hsep hrep hL hfull hyy hvd
+
+/-- **fraction tokens: printed precision**. What comes back for the microsecond is the value rounded down to a multiple of the
+    last printed digit's weight: it differs from the value by less than that weight, and `SSSSSS` returns it exactly -/
+theorem fraction_precision (f : NTok) (us : Int) (hus : 0 ≤ us) :
+    us / f.scale * f.scale ≤ us ∧ us < us / f.scale * f.scale + f.scale ∧ us / f.scale * f.scale = us - us % f.scale ∧
+    (f = NTok.SSSSSS → us / f.scale * f.scale = us) ∧
+    (f.isFrac = true → f.scale = 10 ^ (6 - f.str.length)) := by
+  have hs : f.scale = 100000 ∨ f.scale = 10000 ∨ f.scale = 1000 ∨ f.scale = 100 ∨ f.scale = 10 ∨ f.scale = 1 := by
+    cases f <;> simp [NTok.scale]
+  refine ⟨?_, ?_, ?_, ?_, ?_⟩
+  · rcases hs with h|h|h|h|h|h <;> rw [h] <;> omega
+  · rcases hs with h|h|h|h|h|h <;> rw [h] <;> omega
+  · rcases hs with h|h|h|h|h|h <;> rw [h] <;> omega
+  · intro e; subst e; simp [NTok.scale]
+  · intro hf; cases f <;> first | (simp [NTok.isFrac] at hf; done) | decide
+
+example : (123456 : Int) / NTok.SSS.scale * NTok.SSS.scale = 123000 ∧ NTok.S.scale = 100000 := by decide
+
+/-- **the 27 shipped locales tell their meridiem words apart** (hypothesis `LocOK` of the class theorems holds for each): the AM
+    word, read as the regex it becomes, cannot match where the PM word was written -/
+theorem meridiem_words_distinct : (Gen.FormatLocales.all.all AmPmOK) = true := by decide +kernel
+
+/-- instance, 12-hour clock: `YYYY-MM-DD hh:mm:ss.SSS A Z` in any locale with distinguishable meridiem words — milliseconds -/
+theorem roundtrip_12h_meridiem (L : Loc) (hL : AmPmOK L = true) (v : Val) (hv : InRange v) (now : Now) :
+    ∃ s, format L v "YYYY-MM-DD hh:mm:ss.SSS A Z".toList = .ok s ∧
+      parse L s "YYYY-MM-DD hh:mm:ss.SSS A Z".toList now
+        = .ok ⟨v.y, v.mo, v.d, v.h, v.mi, v.s, v.us / 1000 * 1000, some (TzP.fixed v.off)⟩ :=
+  fromFormat_format_string L v hv
+    [.tok .YYYY, .lit '-', .tok .MM, .lit '-', .tok .DD, .lit ' ', .tok .hh, .lit ':', .tok .mm, .lit ':', .tok .ss, .lit '.',
+     .tok .SSS, .lit ' ', .tok .A, .lit ' ', .tok .Z] .SSS now (by decide) (by decide) (by decide) (fun _ => hL) (by decide)
+    (fun h => by simp [toks] at h) (fun h => by simp [toks, NTok.isDoy] at h)
+
+/-- instance, day of the year: `YYYY DDDD H:m:s.SSSSSS ZZ` for every valid date of the domain -/
+theorem roundtrip_day_of_year (L : Loc) (v : Val) (hv : InRange v) (hd : Cal.validDate v.y v.mo v.d) (now : Now) :
+    ∃ s, format L v "YYYY DDDD H:m:s.SSSSSS ZZ".toList = .ok s ∧
+      parse L s "YYYY DDDD H:m:s.SSSSSS ZZ".toList now
+        = .ok ⟨v.y, v.mo, v.d, v.h, v.mi, v.s, v.us, some (TzP.fixed v.off)⟩ := by
+  obtain ⟨s, h1, h2⟩ := fromFormat_format_string L v hv
+    [.tok .YYYY, .lit ' ', .tok .DDDD, .lit ' ', .tok .H, .lit ':', .tok .m, .lit ':', .tok .s, .lit '.',
+     .tok .SSSSSS, .lit ' ', .tok .ZZ] .SSSSSS now (by decide) (by decide) (by decide) (fun h => by simp [toks] at h) (by decide)
+    (fun h => by simp [toks] at h) (fun _ => hd)
+  refine ⟨s, h1, ?_⟩
+  have e : v.us / NTok.SSSSSS.scale * NTok.SSSSSS.scale = v.us := by simp [NTok.scale]
+  rw [e] at h2
+  exact h2
+
+/-- instance, two-digit year: `DD/MM/YY h:mm:ss.S A ZZ` for the years 1969..2068 (tenths of a second) -/
+theorem roundtrip_two_digit_year (L : Loc) (hL : AmPmOK L = true) (v : Val) (hv : InRange v)
+    (hy : 1969 ≤ v.y ∧ v.y ≤ 2068) (now : Now) :
+    ∃ s, format L v "DD/MM/YY h:mm:ss.S A ZZ".toList = .ok s ∧
+      parse L s "DD/MM/YY h:mm:ss.S A ZZ".toList now
+        = .ok ⟨v.y, v.mo, v.d, v.h, v.mi, v.s, v.us / 100000 * 100000, some (TzP.fixed v.off)⟩ :=
+  fromFormat_format_string L v hv
+    [.tok .DD, .lit '/', .tok .MM, .lit '/', .tok .YY, .lit ' ', .tok .h, .lit ':', .tok .mm, .lit ':', .tok .ss, .lit '.',
+     .tok .S, .lit ' ', .tok .A, .lit ' ', .tok .ZZ] .S now (by decide) (by decide) (by decide) (fun _ => hL) (by decide)
+    (fun _ => hy) (fun h => by simp [toks, NTok.isDoy] at h)
+
+/-- outside the pivot window the two-digit year does not come back (1950 is written `50` and read as 2050): the window
+    hypothesis of the class theorem is needed -/
+theorem yy_outside_window_counterexample :
+    format Gen.FormatLocales.loc_en ⟨1950, 3, 5, 14, 7, 9, 0, 0, "UTC".toList, "UTC".toList⟩ "YY-MM-DD".toList = .ok "50-03-05".toList ∧
+    parse Gen.FormatLocales.loc_en "50-03-05".toList "YY-MM-DD".toList ⟨2000, 1, 1⟩
+      = .ok ⟨2050, 3, 5, 0, 0, 0, 0, none⟩ := by decide +kernel
+
+/-- **round trip, full formats (basic tokens)**: if the format string tokenizes into a format of the class that carries a full
+    date, time, six-digit fraction and offset, then `from_format(dt.format(fmt), fmt)` has `dt`'s fields and offset, for every
+    `dt` of the domain, every locale and every `now` -/
 theorem fromFormat_format (L : Loc) (v : Val) (hv : InRange v) (fmt : Str) (its : List FItem) (now : Now)
     (htok : tokenize fmt = its.map FItem.toItem)
     (hsep : WellSep its = true) (hrep : NoRepeat its = true) (hfull : Full its = true) :
     ∃ s, format L v fmt = .ok s ∧
       parse L s fmt now = .ok ⟨v.y, v.mo, v.d, v.h, v.mi, v.s, v.us, some (TzP.fixed v.off)⟩ := by
-  refine ⟨rendered v its, ?_, ?_⟩
+  refine ⟨rendered L v its, ?_, ?_⟩
   · unfold format; rw [htok, expandItems_class, formatItems_class]
   · unfold parse; rw [htok]; exact parse_format_full L v hv its now hsep hrep hfull
 
@@ -286,10 +396,16 @@ theorem mismatch_valueerror (L : Loc) (time : Str) (items : List Item) (now : No
   · simp [he]
   · simp [he, hels, hdup, hno]
 
-theorem class_only_valueerror (L : Loc) (its : List FItem) (hrep : NoRepeat its = true) (time : Str) (now : Now) :
+theorem class_only_valueerror (L : Loc) (its : List FItem) (hrep : NoRepeat its = true) (hms : MeridiemSafe its = true)
+    (time : Str) (now : Now) :
     (∃ r, parseItems L time (its.map FItem.toItem) now = .ok r) ∨
       parseItems L time (its.map FItem.toItem) now = .error "ValueError" :=
-  parse_class_kinds L its hrep time now
+  parse_class_kinds L its hrep hms time now
+
+/-- why `MeridiemSafe` is asked: with a 24-hour token next to the meridiem, `from_format("13 PM", "HH A")` compares
+    `(13, None, None, None) >= (13, 0, 0, 0)` and raises `TypeError` (observed on the real code as well) -/
+theorem hour24_with_meridiem_typeerror :
+    parse Gen.FormatLocales.loc_en "13 PM".toList "HH A".toList ⟨2000, 1, 1⟩ = .error "TypeError" := by decide +kernel
 
 /-! ## per-locale table theorems (regenerated data, kernel evaluation) -/
 
@@ -337,6 +453,8 @@ theorem localized_roundtrip :
 def sample : Val := ⟨2021, 3, 5, 14, 7, 9, 123456, -1800, "-00:30".toList, "-00:30".toList⟩
 
 example : InRange sample := ⟨by decide, by decide, by decide, by decide, by decide, by decide, by decide, by decide⟩
+/-- … a valid date inside the two-digit-year window (hypotheses of `roundtrip_day_of_year`, `roundtrip_two_digit_year`) -/
+example : Cal.validDate sample.y sample.mo sample.d ∧ 1969 ≤ sample.y ∧ sample.y ≤ 2068 := by decide
 
 example : format Gen.FormatLocales.loc_en sample "YYYY-MM-DD[T]HH:mm:ss.SSSSSS Z ZZ [Q]Q DDDD E d hh A X".toList
     = .ok "2021-03-05T14:07:09.123456 -00:30 -0030 Q1 064 5 5 02 PM 1614955029".toList := by decide +kernel
@@ -347,6 +465,19 @@ example : parse Gen.FormatLocales.loc_en "2021-03-05T14:07:09.123456-00:30".toLi
 example : WellSep [.tok .D, .lit '/', .tok .M, .lit '/', .tok .YYYY, .lit ' ', .tok .H, .lit ':', .tok .mm, .lit ':', .tok .s, .lit '.',
     .tok .SSSSSS, .tok .ZZ] = true ∧ Full [.tok .D, .lit '/', .tok .M, .lit '/', .tok .YYYY, .lit ' ', .tok .H, .lit ':', .tok .mm,
     .lit ':', .tok .s, .lit '.', .tok .SSSSSS, .tok .ZZ] = true := by decide
+
+example : WellSep [.tok .DD, .lit '/', .tok .MM, .lit '/', .tok .YY, .lit ' ', .tok .h, .lit ':', .tok .mm, .lit ':', .tok .ss, .lit '.',
+    .tok .S, .lit ' ', .tok .A, .lit ' ', .tok .ZZ] = true ∧ FullX [.tok .DD, .lit '/', .tok .MM, .lit '/', .tok .YY, .lit ' ', .tok .h,
+    .lit ':', .tok .mm, .lit ':', .tok .ss, .lit '.', .tok .S, .lit ' ', .tok .A, .lit ' ', .tok .ZZ] .S = true := by decide
+
+/-- the extended class at work: midnight hour on the 12-hour clock, day 64 of the year, two-digit year, milliseconds -/
+example : format Gen.FormatLocales.loc_en ⟨2021, 3, 5, 0, 7, 9, 123456, -1800, "-00:30".toList, "-00:30".toList⟩
+      "YY DDDD hh:mm:ss.SSS A Z".toList = .ok "21 064 12:07:09.123 AM -00:30".toList ∧
+    parse Gen.FormatLocales.loc_en "21 064 12:07:09.123 AM -00:30".toList "YY DDDD hh:mm:ss.SSS A Z".toList ⟨1999, 12, 31⟩
+      = .ok ⟨2021, 3, 5, 0, 7, 9, 123000, some (TzP.fixed (-1800))⟩ := by decide +kernel
+
+example : AmPmOK Gen.FormatLocales.loc_en = true ∧ MeridiemSafe [.tok .hh, .lit ' ', .tok .A] = true ∧
+    MeridiemSafe [.tok .HH, .lit ' ', .tok .A] = false := by decide
 
 /-- defaults: only a time of day was read -/
 example : checkParsed { hour := some 12, minute := some 30 } ⟨2015, 11, 12⟩ = .ok ⟨2015, 11, 12, 12, 30, 0, 0, none⟩ := by decide +kernel
